@@ -563,11 +563,9 @@ func ruleC10NoUnwipedCopies(c *Ctx) {
 		consumers: map[string][]int{pkgInt + ".NewCryptoKey": {3}},
 	}
 	n, sites := 0, 0
-	for _, f := range u.RepoFuncs {
-		if f.Pkg == nil || f.Blocks == nil || !strings.HasPrefix(f.Pkg.Pkg.Path(), modApp) {
-			continue
-		}
-		n++
+	// parameters that receive plaintext key bytes at some call site (fixpoint over static calls within the SDK)
+	plainParam := map[*ssa.Parameter]bool{}
+	localPlain := func(f *ssa.Function) (valueSet, func(ssa.Value) bool) {
 		plain := valueSet{}
 		allInstrs(f, func(i ssa.Instruction) {
 			for _, pr := range a.sourceResults(i) {
@@ -578,8 +576,15 @@ func ruleC10NoUnwipedCopies(c *Ctx) {
 				}
 			}
 		})
-		isPlain := func(v ssa.Value) bool {
-			if plain[v] || plain[strip(v)] {
+		for _, p := range f.Params {
+			if plainParam[p] {
+				for v := range aliasClosure(p, &ownRules{}) {
+					plain[v] = true
+				}
+			}
+		}
+		return plain, func(v ssa.Value) bool {
+			if plain[v] || plain[strip(v)] || plain[resolve(v)] {
 				return true
 			}
 			if !isByteSlice(v.Type()) {
@@ -587,6 +592,42 @@ func ruleC10NoUnwipedCopies(c *Ctx) {
 			}
 			return strings.HasSuffix(trimAddr(accessPath(v)), ".Plaintext")
 		}
+	}
+	for changed, rounds := true, 0; changed && rounds < 4; rounds++ {
+		changed = false
+		for _, f := range u.RepoFuncs {
+			if f.Pkg == nil || f.Blocks == nil || !strings.HasPrefix(f.Pkg.Pkg.Path(), modApp) {
+				continue
+			}
+			_, isPlain := localPlain(f)
+			allInstrs(f, func(i ssa.Instruction) {
+				cc := callOf(i)
+				if cc == nil {
+					return
+				}
+				g := staticCallee(i)
+				if g == nil || g.Blocks == nil || g.Pkg == nil || !strings.HasPrefix(g.Pkg.Pkg.Path(), modApp) {
+					return
+				}
+				switch funcFullName(g) {
+				case fnMemClr, pkgInt + ".NewCryptoKey":
+					return
+				}
+				for k, arg := range cc.Args {
+					if k < len(g.Params) && isByteSlice(arg.Type()) && isPlain(arg) && !plainParam[g.Params[k]] {
+						plainParam[g.Params[k]] = true
+						changed = true
+					}
+				}
+			})
+		}
+	}
+	for _, f := range u.RepoFuncs {
+		if f.Pkg == nil || f.Blocks == nil || !strings.HasPrefix(f.Pkg.Pkg.Path(), modApp) {
+			continue
+		}
+		n++
+		_, isPlain := localPlain(f)
 		for _, cs := range plaintextCopies(f, isPlain) {
 			sites++
 			construct := trimPkgDirs(shortName(f)) + "/" + cs.What
